@@ -257,14 +257,7 @@ def analyse(facts, tier):
             # stores of a round and of the two source reads as affine forms in the round counter (whatever it is called and however
             # the address is spelled: p[k], *(p + k), a local pointer to the frame)
             pn = [p_['n'] for p_ in h.params]
-            counter = None
             loops_h = [x for x in walk(h.tree) if isinstance(x, dict) and x.get('k') in ('ForStmt', 'WhileStmt') and x.get('cond') is not None]
-            lp = False
-            for l_ in loops_h:
-                c_ = strip(l_['cond'])
-                if c_.get('k') == 'BinaryOperator' and c_.get('op') == '<' and strip(c_['l']).get('k') == 'DeclRefExpr' and strip(c_['r']).get('id') == h.params[3]['id']:
-                    counter = strip(c_['l'])
-                    lp = True
             stores = []
             for b, j, st in h.cfg.stmts():
                 for x in walk(st['s']):
@@ -272,20 +265,26 @@ def analyse(facts, tier):
                     if ap and ap[2] == '=' and strip(ap[0]).get('k') in ('UnaryOperator', 'ArraySubscriptExpr'):
                         stores.append((st, ap))
             shapes = []
-            if counter is not None:
-                cn = counter['n']
-                for st, ap in stores:
-                    eng = affine.Affine(h, [], {})
-                    env = eng.run(lambda t, env_, e_, st=st: t is st['s'] or (isinstance(t, dict) and t.get('ln') == st['s'].get('ln') and show(t) == show(st['s'])))
-                    if env is None:
-                        continue
-                    dst = affine.address_form(eng, ap[0], env)
-                    reads = [y for y in walk(ap[1]) if isinstance(y, dict) and (y.get('k') == 'ArraySubscriptExpr' or (y.get('k') == 'UnaryOperator' and y.get('op') == '*'))]
-                    src = affine.address_form(eng, reads[0], env) if len(reads) == 1 else None
-                    shapes.append((dst, src))
-            stride = '*'.join(sorted((counter['n'], pn[4]))) if counter is not None else None
-            want = [(({pn[0]: 1, stride: 1}, 0), ({pn[2]: 1, counter['n']: 2}, 0)), (({pn[1]: 1, stride: 1}, 0), ({pn[2]: 1, counter['n']: 2}, 1))] if counter is not None else []
-            ok = counter is not None and len(shapes) == 2 and all(w in shapes for w in want)
+            lp = False
+            for st, ap in stores:
+                eng = affine.Affine(h, [], {})
+                env = eng.run(lambda t, env_, e_, st=st: t is st['s'] or (isinstance(t, dict) and t.get('ln') == st['s'].get('ln') and show(t) == show(st['s'])))
+                if env is None:
+                    continue
+                dst = affine.address_form(eng, ap[0], env)
+                reads = [y for y in walk(ap[1]) if isinstance(y, dict) and (y.get('k') == 'ArraySubscriptExpr' or (y.get('k') == 'UnaryOperator' and y.get('op') == '*'))]
+                src = affine.address_form(eng, reads[0], env) if len(reads) == 1 else None
+                shapes.append((dst, src))
+                # the loop runs frameCount rounds: its condition compares, in round #k, c * #k with c * frameCount (`i < n`, `p != end`)
+                for l_ in loops_h:
+                    c_ = strip(l_['cond'])
+                    if c_.get('k') == 'BinaryOperator' and c_.get('op') in ('<', '!='):
+                        d_ = affine.add_forms(eng.form(c_['l'], env), eng.form(c_['r'], env), -1)
+                        if d_ is not None and d_[1] == 0 and set(d_[0]) == {'#k', pn[3]} and d_[0]['#k'] > 0 and d_[0]['#k'] == -d_[0][pn[3]]:
+                            lp = True
+            stride = '*'.join(sorted(('#k', pn[4])))
+            want = [(({pn[0]: 1, stride: 1}, 0), ({pn[2]: 1, '#k': 2}, 0)), (({pn[1]: 1, stride: 1}, 0), ({pn[2]: 1, '#k': 2}, 1))]
+            ok = len(shapes) == 2 and all(w in shapes for w in want)
             dsts = [str(x) for x in shapes]
             # nothing else is written: every store to memory in the helper is one of the two strided stores
             other = []
@@ -377,6 +376,13 @@ def analyse(facts, tier):
         raise build.AnalysisBroken('C13.R4: only %d copy arms found' % n_arms)
     # unsupported pairs refuse
     minus = [st for b, j, st in ssa.cfg.returns() if const_of(st['s'].get('e')) == -1]
+    # .. or store -1 into the local that the function returns (single-exit form)
+    ret_ids = {strip(st['s']['e']).get('id') for b, j, st in ssa.cfg.returns() if st['s'].get('e') is not None and strip(st['s']['e']).get('k') == 'DeclRefExpr'}
+    for b, j, st in ssa.cfg.stmts():
+        for x in walk(st['s']):
+            ap = assign_parts_raw(x) if isinstance(x, dict) else None
+            if ap and ap[2] == '=' and strip(ap[0]).get('id') in ret_ids and const_of(ap[1]) == -1:
+                minus.append(st)
     obls.append(Obl('C13.R4', ssa.name, 'unsupported pairs return -1', ssa.loc, 'discharged' if len(minus) >= 6 else 'finding', why='%d refusing returns (one per sample-type group and the outer default)' % len(minus)))
     # converter ranges by abstract evaluation over all int32 inputs
     for cname, (lo, hi) in sorted(EXPECT_RANGES.items()):
